@@ -145,7 +145,7 @@ def _agree_conc(s: str) -> bool:
         return want is None
     if want is None:
         return False
-    return got[1] == want[1] and got[2] == want[2] and (_close(got[0], want[0]) or abs(got[0] - want[0]) <= 1e-10)
+    return got[1] == want[1] and got[2] == want[2] and _close(got[0], want[0])
 
 
 def c_concentration_string(s: str) -> bool:
